@@ -138,6 +138,7 @@ def taint_function(fi: FuncInfo):
 
 def check(ctx):
     repo = ctx.repo
+    ctx.rule("R09.9", "no nested function or lambda modifies a variable captured from its enclosing function (no stateful closures)", 1)
     ctx.rule("R09.8", "no function writes module-level or class-level state (nothing survives from one run to the next inside a process)", 1)
     ctx.rule("R09.7", "mutable default arguments are never modified (a default object is shared by all calls in the process)", 1)
     ctx.rule("R09.6", "no function writes into an array it was handed (output-parameter table excepted): a run leaves its inputs as it found them", 1)
@@ -189,6 +190,9 @@ def check(ctx):
     from ..effects import no_global_state
     no_global_state(ctx, "R09.8", "a second run in the same process sees what the first run left behind (a cache, a counter): "
                                   "its results differ from the same run in a fresh process")
+    from ..effects import no_stateful_closures
+    no_stateful_closures(ctx, "R09.9", "what a stored callable returns depends on the calls made before - including the calls the validator makes at "
+                                       "randomly drawn times - so two runs with identical inputs differ")
     from ..effects import input_purity
     input_purity(ctx, "R09.6", 'solving overwrites an array owned by the caller (e.g. the induced vector potential of the seed Solution): the same call repeated in the same process starts from different data, so repeated runs are no longer bit-identical')
     ctx.assume("Triangle, SuperLU, qhull, BLAS threading and numba's fastmath code generation are deterministic on one machine (external)")
